@@ -17,6 +17,15 @@
 // firing the choice between the interrupted thread, the callback and the next firing is free
 // (no preemption cost), which is a superset of what AutoTimers explores with the same bound.
 //
+// The connection's ORIGIN is a dimension (added after seeded change C16-m4, which only showed on
+// a connection from DialAsyncTimeout): the lists run on a connection that was added to the engine
+// (as an accepted one is), and a representative subset runs on connections obtained through
+// DialAsync, through DialAsyncTimeout whose timeout is cleared by the completing connect (the
+// network thread completes the handshake concurrently with the call), through DialAsyncTimeout
+// with a synchronous connect (thorough) and on the closed connection that a fired dial timeout
+// leaves behind. DialAsyncTimeout keeps the dial timeout in the write-deadline slot; once the dial
+// has reported success no close may carry ErrDialTimeout and no timer may be armed.
+//
 // The second half (keepalive.go) drives a real nbhttp.Engine with KeepaliveTime = 7 s.
 package main
 
@@ -58,11 +67,50 @@ func (o op) String() string {
 	case 'P', 'C', 'O', 'X', 'I':
 		return string(o.kind)
 	}
+	if o.isSet() && o.d == dNow {
+		return string(o.kind) + "now"
+	}
+	if o.isSet() && o.d == dPast {
+		return string(o.kind) + "past"
+	}
 	return fmt.Sprintf("%c%d", o.kind, o.d)
 }
 
+// deadline arguments besides "now + d seconds" (d > 0) and the zero time (d == 0): the current
+// instant and an instant that has passed. Both are non-zero times, so they SET a deadline - one
+// that is already reached.
+const (
+	dNow  = -1
+	dPast = -2 // now - 2 s
+)
+
+// targetOf is the time.Time handed to Set*Deadline.
+func (o op) targetOf(now time.Time) time.Time {
+	switch {
+	case o.d > 0:
+		return now.Add(time.Duration(o.d) * time.Second)
+	case o.d == dNow:
+		return now
+	case o.d == dPast:
+		return now.Add(-2 * time.Second)
+	}
+	return time.Time{}
+}
+
+// armedFor is the model's deadline after a set that began at vs and ended at ve: the timer is
+// armed at some instant a in [vs, ve] for max(0, target - (an earlier clock reading)) and hence
+// fires in [max(target, vs), max(target, vs) + (ve - vs)]. A deadline that is already reached
+// fires "at once", i.e. at the instant it was armed.
+func armedFor(target, vs, ve time.Time) deadline {
+	eff := target
+	if eff.Before(vs) {
+		eff = vs
+	}
+	return deadline{state: dlSet, lo: eff, hi: eff.Add(ve.Sub(vs)), reached: !target.After(vs)}
+}
+
 func (o op) isSet() bool     { return o.kind == 'R' || o.kind == 'W' || o.kind == 'D' }
-func (o op) isNonZero() bool { return o.isSet() && o.d > 0 }
+func (o op) isNonZero() bool { return o.isSet() && o.d != 0 }
 func (o op) isWrite() bool   { return o.kind == 'w' || o.kind == 'v' }
 
 // affects reports whether the operation can change the deadline of direction dir (0 read, 1 write).
@@ -191,6 +239,8 @@ type deadline struct {
 	state  int
 	lo, hi time.Time // the timer must fire in [lo, hi] (hi > lo only if the clock moved during the setting call)
 	via    string    // how it got into state none (for messages)
+	// the deadline was not in the future when it was set (SetXDeadline(now), a past instant)
+	reached bool
 }
 
 type fireRec struct {
@@ -480,7 +530,10 @@ func (w *world) begin(o op) *opRun {
 	r := &opRun{o: o, sb: w.conn.VerifSnapshot(), vs: vtime.VNow()}
 	w.inflight = &r.o
 	if o.isNonZero() {
-		r.target = r.vs.Add(time.Duration(o.d) * time.Second)
+		r.target = o.targetOf(r.vs)
+		if o.d < 0 {
+			w.counters["sets_of_a_deadline_already_reached"]++
+		}
 	}
 	if o.kind == 'C' {
 		w.userClose = true
@@ -565,7 +618,7 @@ func (w *world) end(r *opRun) {
 							w.counters["renewals_to_earlier"]++
 						}
 					}
-					w.dl[dir] = deadline{state: dlSet, lo: target, hi: target.Add(ve.Sub(vs))}
+					w.dl[dir] = armedFor(target, vs, ve)
 				}
 			}
 		case 'O', 'X':
@@ -631,7 +684,7 @@ func (w *world) end(r *opRun) {
 			f.pending = false
 			cand := deadline{}
 			if o.isNonZero() && o.affects(dir) {
-				cand = deadline{state: dlSet, lo: target, hi: target.Add(ve.Sub(vs))}
+				cand = armedFor(target, vs, ve)
 			}
 			switch {
 			case f.old.fits(f.at) || cand.fits(f.at):
@@ -697,6 +750,7 @@ func (w *world) end(r *opRun) {
 func (w *world) dial(g *nbio.Engine) bool {
 	vsys.DialSndCap = K
 	calls := 0
+	armedAtAccept := 0 // timers armed when the network completed the handshake
 	var cbErr error
 	var cbConn *nbio.Conn
 	cb := func(cc *nbio.Conn, err error) {
@@ -710,6 +764,8 @@ func (w *world) dial(g *nbio.Engine) bool {
 	case "dial", "dialT":
 		vsched.GoNamed("network", func() {
 			vsched.Block("network: no connect in progress", func() bool { return len(vsys.Dials()) > 0 })
+			w.tick()
+			armedAtAccept = vtime.Armed()
 			w.peer = vsys.Dials()[0].Accept()
 			w.tick()
 		})
@@ -783,13 +839,17 @@ func (w *world) dial(g *nbio.Engine) bool {
 				slot = dirName[dir] + " timer, armed for " + rel(ts.t[dir].when)
 			}
 		}
-		// two different defects: a dial timer that the completion of the connect does not clear, and
-		// a dial timer that is armed only after the connect was already reported
-		when, how := "after-dial-returned", "the connect completed after DialAsyncTimeout had returned"
-		if reportedAtReturn {
-			when, how = "during-dial-call", "the connect completed and was reported while DialAsyncTimeout was still running"
+		// two different defects: a dial timer that was armed when the handshake completed and that
+		// the completion did not clear, and a dial timer that was armed only after the completion
+		// had found nothing to clear
+		armed, how := "after-connect", "the dial timeout was armed after the connect had completed"
+		if armedAtAccept > 0 {
+			armed, how = "before-connect", "the dial timeout was armed when the connect completed and the completion did not clear it"
 		}
-		w.failf("stale-dial-timer origin=%s connect=%s|the dial reported success (%s), the connection is established and idle, yet %d timer(s) are armed: %v (connection slot: %s); it would close the established connection with the dial timeout %v after the dial", w.origin, when, how, n, vtime.ArmedNames(), slot, dialTimeout)
+		if reportedAtReturn {
+			how += "; the dial callback ran while DialAsyncTimeout was still running"
+		}
+		w.failf("stale-dial-timer origin=%s armed=%s|the dial reported success, the connection is established and idle, yet %d timer(s) are armed: %v (connection slot: %s): %s. It would close the established connection with the dial timeout %v after the dial", w.origin, armed, n, vtime.ArmedNames(), slot, how, dialTimeout)
 		return false
 	}
 	w.counters["dialed_connections"]++
@@ -881,6 +941,10 @@ func body(c cfg) func() {
 				case dlSet:
 					if dir == 1 && w.backlogUnderWDeadline && snap.QueueLen == 0 {
 						w.counters["open_at_end_write_deadline_after_flush_emptied_backlog_not_judged"]++
+						continue
+					}
+					if w.dl[dir].reached {
+						w.failf("deadline-not-enforced dir=%s reached-when-set|the %s deadline was set to an instant that was already reached (a non-zero time, not a clear): it expires at once, at %s. It was never renewed, cleared or cancelled, every pending timer has fired (virtual time %s), and the connection is still open", dirName[dir], dirName[dir], w.dlString(dir), rel(vtime.VNow()))
 						continue
 					}
 					w.failf("deadline-not-enforced dir=%s|the %s deadline %s was never renewed, cleared or cancelled, every pending timer has fired (virtual time %s), and the connection is still open", dirName[dir], dirName[dir], w.dlString(dir), rel(vtime.VNow()))
@@ -1025,7 +1089,58 @@ func final(ops []op) bool {
 	return true
 }
 
-func lists(maxLen int) [][]op {
+func lists(maxLen int) [][]op { return listsOver(alphabet, maxLen) }
+
+// reached are the deadline arguments that are non-zero but not in the future.
+var reached = []op{{'R', dNow}, {'R', dPast}, {'W', dNow}, {'W', dPast}, {'D', dNow}, {'D', dPast}}
+
+func hasReached(l []op) bool {
+	for _, o := range l {
+		if o.isSet() && o.d < 0 {
+			return true
+		}
+	}
+	return false
+}
+
+// reachedLists are the operation lists with a deadline that is already reached when it is set
+// (the current instant, an instant in the past): every setter alone, after an earlier future
+// deadline of the same direction, across directions, after time has passed, followed by a
+// renewal / a clear / a Write, and behind a backlog. Thorough: every admissible list of length
+// <= 2 over the alphabet extended by these six arguments.
+func reachedLists(thorough bool) [][]op {
+	var out [][]op
+	if thorough {
+		for _, l := range listsOver(append(append([]op(nil), alphabet...), reached...), 2) {
+			if hasReached(l) {
+				out = append(out, l)
+			}
+		}
+	} else {
+		for _, r := range reached {
+			out = append(out, []op{r}, []op{{r.kind, 5}, r})
+		}
+		out = append(out, [][]op{
+			{{'R', 5}, {'D', dNow}}, {{'W', 9}, {'D', dPast}}, {{'D', 5}, {'R', dNow}}, {{'D', 5}, {'W', dPast}},
+		}...)
+	}
+	out = append(out, [][]op{
+		{{'R', 5}, {'Z', 3}, {'R', dPast}}, {{'W', 5}, {'Z', 3}, {'W', dNow}}, {{'D', 9}, {'Z', 3}, {'D', dPast}},
+		{{'R', dNow}, {'R', 9}}, {{'W', dNow}, {'W', 0}}, {{'D', dPast}, {'D', 0}}, {{'W', dPast}, {'w', 1}}, {{'R', dPast}, {'C', 0}},
+		{{'w', 5}, {'W', dNow}}, {{'w', 5}, {'D', dPast}, {'P', 0}},
+	}...)
+	seen := map[string]bool{}
+	var uniq [][]op
+	for _, l := range out {
+		if k := opsString(l); !seen[k] {
+			seen[k] = true
+			uniq = append(uniq, l)
+		}
+	}
+	return uniq
+}
+
+func listsOver(alphabet []op, maxLen int) [][]op {
 	var out [][]op
 	var rec func(cur []op)
 	rec = func(cur []op) {
@@ -1065,7 +1180,7 @@ func build(tier string) []*vkit.Scenario {
 	if thorough {
 		maxLen = 4
 	}
-	for _, l := range lists(maxLen) {
+	for _, l := range append(lists(maxLen), reachedLists(thorough)...) {
 		// the epoll mode only matters when the poller has something to do (a backlog to flush)
 		modes := []ekit.Mode{ekit.LT}
 		if hasBacklog(l) {
@@ -1178,6 +1293,7 @@ func build(tier string) []*vkit.Scenario {
 		{[]op{W(5), wr(1)}, both, true}, {[]op{D(5), wr(1)}, onlyT, false}, {[]op{wr(1), W(5)}, onlyT, true},
 		{[]op{wr(5), W(5)}, both, true}, {[]op{W(5), wr(5), P}, both, true}, {[]op{wr(5), W(5), P}, onlyT, false}, {[]op{W(5), wr(5), wr(1)}, onlyT, false},
 		{[]op{W(5), C}, onlyT, true}, {[]op{D(5), C, R(5)}, onlyT, false}, {[]op{R(5), W(9)}, onlyT, true},
+		{[]op{W(dNow)}, onlyT, true}, {[]op{D(dPast)}, onlyT, true},
 	}
 	if thorough {
 		// every list of length <= 2 on a connection from DialAsyncTimeout
@@ -1251,7 +1367,7 @@ func build(tier string) []*vkit.Scenario {
 func main() {
 	vkit.Main(&vkit.Spec{
 		Property: "C16", Level: "model_checking",
-		Rule: "core: one scenario = epoll mode x operation list of thread A (length <= 3 quick / <= 4 thorough) over SetReadDeadline/SetWriteDeadline/SetDeadline(now+5s | now+9s | zero time), Write(1) / Writev(2x1) (fit into the socket, K=3), Write(5) (leaves a backlog of 2), peer drain, 3 s sleep, Close; lists are pruned only where the last operation cannot matter (a clear with nothing to clear, a write without a write deadline, a drain with nothing sent, anything but one deadline set after Close, a trailing sleep); plus 8 lists that end in a close by nbio itself (write overflow, EPIPE after a peer reset). A clock thread fires the earliest virtual timer; every placement of a firing relative to A, the poller and the timer callbacks within the preemption bound (listed per scenario; free choices - which thread runs when one blocks or ends, which of two timers with equal deadlines fires - are always complete). keepalive: one scenario = HTTP | WebSocket x epoll mode x list of gaps (seconds slept before each request / message, drawn from values below, equal to and above the keep-alive time) x handler duration (instantaneous, or 3 of the 7 s / 2 of the 4 s of virtual time spent inside the HTTP handler / the WebSocket message handler, during which the clock runs); firings while no exchange is in flight are placed by the scheduler, firings in the middle of an exchange at three offered points (after the client's write, at handler entry, after the upgrade) within the deviation bound. non-trivial = at least one deadline timer of the connection fired in the scenario",
+		Rule: "core: one scenario = epoll mode x operation list of thread A (length <= 3 quick / <= 4 thorough) over SetReadDeadline/SetWriteDeadline/SetDeadline(now+5s | now+9s | zero time; plus lists with the current instant and a past instant for each setter: alone, after a future deadline of the same direction, across directions, after time passed, followed by renewal / clear / Write / Close, behind a backlog - thorough: every list of length <= 2 over the extended alphabet), Write(1) / Writev(2x1) (fit into the socket, K=3), Write(5) (leaves a backlog of 2), peer drain, 3 s sleep, Close; lists are pruned only where the last operation cannot matter (a clear with nothing to clear, a write without a write deadline, a drain with nothing sent, anything but one deadline set after Close, a trailing sleep); plus 8 lists that end in a close by nbio itself (write overflow, EPIPE after a peer reset); x origin of the connection: every list on an added connection, 22 representative lists (one expiry per kind of deadline, set-clear-set, renewal, Write that empties / leaves a backlog, drain, Close; thorough: every list of length <= 2) on connections from DialAsync / DialAsyncTimeout(7 s) whose connect is completed by a network thread that runs concurrently with the dial call (thorough: also a synchronous connect), 4 lists on the connection left by a dial timeout that fired. A clock thread fires the earliest virtual timer; every placement of a firing relative to A, the poller and the timer callbacks within the preemption bound (listed per scenario; free choices - which thread runs when one blocks or ends, which of two timers with equal deadlines fires - are always complete). keepalive: one scenario = HTTP | WebSocket x epoll mode x list of steps (seconds slept before each unit, drawn from values below, equal to and above the keep-alive time; kind of unit: HTTP complete request | POST head | POST body, WebSocket text | binary | ping | pong | first / middle / last fragment of a message; the gap lists with the default kind - request, text message - up to length 2, every other kind alone and in the listed combinations; 'calm' scenarios - timers fire only when every thread is blocked - cover every ordered pair (thorough: triple) of WebSocket kinds with gaps that make each unit depend on its predecessor's renewal, fragmented messages with control frames in between and HTTP sequences of up to 4 units) x handler duration (instantaneous, or 3 of the 7 s / 2 of the 4 s of virtual time spent inside the HTTP handler / the WebSocket message handler, during which the clock runs); firings while no exchange is in flight are placed by the scheduler, firings in the middle of an exchange at three offered points (after the client's write, at handler entry, after the upgrade) within the deviation bound. non-trivial = at least one deadline timer of the connection fired in the scenario",
 		Assumptions: []string{
 			"virtual time: the clock only moves when a timer fires and then jumps exactly to that timer's deadline; nbio reads it through time.Now/time.Until/AfterFunc/Reset. 'Never early' and 'at the deadline' are judged on the virtual time of the FIRING (the instant the runtime starts the AfterFunc callback), not on the time of the close notification, which nbio delivers asynchronously",
 			"reference model per direction: deadline = last non-zero Set*Deadline that returned; none after a zero-time set, after Close, after any close notification, and (write direction) after a Write/Writev call that returned with an empty backlog. A backlog emptied later by the poller's flush does not clear the write deadline in the model (SetWriteDeadline's doc comment), but a connection that is still open at the end in that situation would not be reported either",
@@ -1261,7 +1377,10 @@ func main() {
 			"cancelled = disarmed: after a clearing call returned, after Close returned, at every close notification, and after a Set*Deadline on a closed connection, the connection's deadline timers must not be armed and no armed AfterFunc timer may exist that the connection no longer refers to (the connection is the only creator of AfterFunc timers in these scenarios). A stale timer that would fire into a closed connection closes nothing, but the statement says closing cancels the deadline; such findings carry 'timer-armed-after-close ... via=<how it was closed>' and say so",
 			"fires: once thread A is done the clock thread keeps firing until no timer is armed; a connection that is then still open although the model has a deadline is reported (deadline-not-enforced)",
 			"the firing is done by a harness clock thread through vtime.FireNext instead of Options.AutoTimers so that the harness knows which timer fired, when, and in which model state; the schedules are a superset of AutoTimers' at the same bound (after a firing the choice between the interrupted thread, the callback and the next firing is free)",
-			"keep-alive: nbhttp.Engine with IOModNonBlocking, KeepaliveTime 7 s, ServerExecutor = one thread per job batch (the inline executor func(f){f()} deadlocks the poller when a close notification is queued behind a request that is being parsed - Parser.Parse holds the parser mutex while the job list runs CloseAndClean; already recorded under C18, notes/repro/C18_http_inline_executor_self_deadlock), websocket.Upgrader.KeepaliveTime 4 s. lastActivity = AddConnNonTLSNonBlocking, the end of each response (flushResponse's renewal, bracketed by the END of the handler and the return of the job batch - a handler that takes 3 virtual seconds moves the expected close by 3 s), the upgrade (renewal inside Upgrade, bracketed by handler entry and return), the end of the handling of each text message. The client sends complete requests/messages only and waits for each exchange to complete before it sleeps again (pipelining and partial requests are C10/C06 subjects). Expected: closed with ErrReadTimeout by a firing at exactly lastActivity + keep-alive time (interval as above), never earlier; a firing while an exchange is in flight may go either way. TLS and the blocking I/O modes are not covered (DESIGN section 5)",
+			"keep-alive: nbhttp.Engine with IOModNonBlocking, KeepaliveTime 7 s, ServerExecutor = one thread per job batch (the inline executor func(f){f()} deadlocks the poller when a close notification is queued behind a request that is being parsed - Parser.Parse holds the parser mutex while the job list runs CloseAndClean; already recorded under C18, notes/repro/C18_http_inline_executor_self_deadlock), websocket.Upgrader.KeepaliveTime 4 s. lastActivity = AddConnNonTLSNonBlocking, the end of each response (flushResponse's renewal, bracketed by the END of the handler and the return of the job batch - a handler that takes 3 virtual seconds moves the expected close by 3 s), the upgrade (renewal inside Upgrade, bracketed by handler entry and return), the end of the handling of each text message. The client waits for each exchange that completes a unit to be processed before it sleeps again and does not wait after bytes that complete nothing (pipelining is a C10 subject). Expected: closed with ErrReadTimeout by a firing at exactly lastActivity + keep-alive time (interval as above), never earlier; a firing while an exchange is in flight may go either way. TLS and the blocking I/O modes are not covered (DESIGN section 5)",
+			"origin of the connection: for a connection from DialAsync/DialAsyncTimeout the reference model starts when the dial callback has reported success and the dial call has returned: from then on no deadline exists until one is set, no virtual timer may be armed (stale-dial-timer: armed=before-connect - the completion did not clear the dial timeout; armed=after-connect - the dial timeout was armed after the completion had found nothing to clear), and a close notification that carries ErrDialTimeout is a wrong error whatever expired (wrong-timeout-error got=dial). A dial timeout that fires while the connect is still in progress is legitimate (callback and notification count are C03's); afterwards the connection is closed and the operations must arm nothing",
+			"keep-alive, what counts as activity (read off the unchanged code, the statement only says 'idle' / 'silent'): every unit the server HANDLES renews - the end of each HTTP response (flushResponse), the upgrade, and every WebSocket message passed to handleWsMessage: complete text/binary messages (for a fragmented message: when its last fragment arrived) and every control frame (ping, pong), whose handlers run through the same deferred renewal. Inbound bytes that complete nothing (a first or middle fragment, a POST head without its body) renew nothing in the code; whether such a connection is still 'idle/silent' is left open by the statement, so for them the model accepts a firing anywhere in [last handled unit + keep-alive, last inbound byte + keep-alive] and still requires the close (counters fire_after_partial_unit_*)",
+			"a deadline that is already reached when it is set (SetXDeadline(time.Now()), an instant in the past; any non-zero time.Time) is a deadline, not a clear: read off the unchanged code, every setter tests t.IsZero() only and arms a timer for max(0, time.Until(t)), so the connection is closed 'at once' with the corresponding timeout error; in the model such a deadline lies at the instant it was armed ([begin, end] of the setting call), it replaces a pending later deadline of the same direction, a connection that stays open is reported as deadline-not-enforced ... reached-when-set, and a renewal / clear / emptying Write that follows races with the immediate firing like any other",
 			"not judged here: number of close notifications and errors returned by calls on a closed connection (C03), byte stream contents (C01), buffer ownership (C11; a fresh tracking allocator is installed per execution for isolation)",
 		},
 		Build: build, QuickBudget: 45 * time.Second, ThoroughBudget: 6 * time.Minute, MinNonTrivial: 300,
